@@ -13,6 +13,7 @@
 import SPProofs.Logic.Lemmas
 import SPProofs.Logic.Tseitin
 import SPProofs.Logic.Naive
+import SPProofs.Logic.Switch
 
 namespace SPModel.C11
 open SPModel
@@ -60,7 +61,7 @@ theorem tseitin_range (f : Formula) (n : Nat) (hn : 0 < n) (hf : f.WF n) :
   · simp only [List.mem_map] at hl
     obtain ⟨t, ht, rfl⟩ := hl
     have := hI.lits c' hc' t ht
-    unfold LitOK at this
+    unfold FLitOK at this
     cases t with | mk neg v =>
     cases neg
     · simpa [TLit.toInt] using this
@@ -86,8 +87,8 @@ theorem naive_vars (f : Formula) : ∀ v ∈ (toCnfNaive f).vars, v ∈ f.vars :
     uses fresh variables only from `[n, n')`. -/
 theorem switching_models_partial (fuel : Nat) (f g : Formula) (n n' : Nat) (hn : 0 < n) (hf : f.WF n)
     (h : toCnfSwitching fuel f n = .ok (g, n')) (σ : Assign) :
-    n ≤ n' ∧ g.WF n' ∧ (f.eval σ = true ↔ ∃ τ, AgreeBelow n σ τ ∧ g.eval τ = true) := by
-  sorry
+    n ≤ n' ∧ g.WF n' ∧ (f.eval σ = true ↔ ∃ τ, AgreeBelow n σ τ ∧ g.eval τ = true) :=
+  switching_models_partial' fuel f g n n' hn hf h σ
 
 /-- Non-vacuity: a concrete formula with a shared sub-formula (cache hit), an
     implication and a negative literal. -/
